@@ -165,7 +165,7 @@ func clientLine(g *core.Stream) (line string, captcha string) {
 		c := ""
 		if g.Chance(1, 3) {
 			if g.Chance(1, 3) {
-				c = g.Pick([]string{"ok", "ok", "old", "mut", "wrongpurpose"})
+				c = g.Pick([]string{"ok", "ok", "old", "mut", "wrongpurpose", "parts4", "dots", "garbage"})
 				l += " {captcha}"
 			} else {
 				l += " " + g.Pick(e1Keys)
@@ -242,7 +242,7 @@ func clientLine(g *core.Stream) (line string, captcha string) {
 	case r < 95:
 		return g.Pick([]string{"NS", "CS", "NICKSERV", "BS"}) + g.Pick([]string{"", " IDENTIFY x", " :help me"}), ""
 	case r < 96:
-		return "PASS " + g.Pick([]string{"secret", "oper=" + e1OperName + " " + e1OperPass, "services=" + e1SvcPass, "nickserv=x:oper=root opw", "captcha={captcha}"}), g.Pick([]string{"ok", "mut"})
+		return "PASS " + g.Pick([]string{"secret", "oper=" + e1OperName + " " + e1OperPass, "services=" + e1SvcPass, "nickserv=x:oper=root opw", "captcha={captcha}", ":captcha={captcha}"}), g.Pick([]string{"ok", "mut", "parts4", "dots", "garbage"})
 	case r < 97:
 		return "QUIT" + g.Pick([]string{"", " :bye", " :"}), ""
 	case r < 98:
@@ -310,6 +310,14 @@ func servicesLine(g *core.Stream) string {
 // mintCaptcha builds a captcha token the way robustirc/captchasrv would
 // ("okay:" + purpose from the challenge URL), signed with the network secret.
 func mintCaptcha(kind string, auth string, lastActivityNano int64, cmd, arg string) string {
+	switch kind {
+	case "parts4":
+		return "QQ==.QQ==.QQ==.QQ=="
+	case "dots":
+		return "...."
+	case "garbage":
+		return "not-base64.%%%.x"
+	}
 	purpose := fmt.Sprintf("okay:%s:%d:%s", cmd, lastActivityNano, arg)
 	switch kind {
 	case "old":
